@@ -96,6 +96,10 @@ func genPool(seed uint64, idx uint64, thorough bool) tlive.Scenario {
 		genRecancel(r, &sc)
 		return sc
 	}
+	if (thorough && idx >= 480 && idx%3 == 1) || (!thorough && r.Chance(1, 8)) {
+		genSparse(r, &sc)
+		return sc
+	}
 	for g := 0; g < sc.NG; g++ {
 		perm := nthPerm(order)
 		if g > 0 {
@@ -252,9 +256,10 @@ func runScenario(sc tlive.Scenario, seed uint64) childLine {
 	counts[fmt.Sprintf("idle_us:%d", sc.IdleUs)]++
 	counts[fmt.Sprintf("maxw:%d", sc.MaxW)]++
 	counts[fmt.Sprintf("callers:%d", sc.NG)]++
-	if sc.Family == "recancel" {
-		counts["family:recancel"]++
-	} else {
+	switch sc.Family {
+	case "recancel", "sparse":
+		counts["family:"+sc.Family]++
+	default:
 		counts["family:patterns"]++
 	}
 	for _, f := range res.Futs {
@@ -491,7 +496,7 @@ func main() {
 	s.Close("(a) tight re-arm behind a distant future (2 processes, GOMAXPROCS 2..16): 1-3 futures 1 h away keep the worker heading for a long sleep while 1-4 callers schedule zero-delay / 0-30 us futures, each right after the previous callback of that caller started (busy-loop gaps i mod 1..257), optionally a near head scheduled and cancelled at once every k-th iteration and cancelled again later; "+
 		"per iteration: started within 1 s, start > call + d, callbacks <= calls, cancelled heads never run (folded; sampled iterations verbatim); a stall counts only if it happened in three runs of the scenario in a row while the canary (200 us sleeper) overslept < 50 ms; "+
 		"(b) live scenarios (one at a time per process, 8 processes): family patterns = per caller a permutation of the phases {far (1 h, cancelled at the end), near (0.5-4 ms), burst of maxWorkers+1..6 due at once, cancel-head (head of the queue cancelled, follower must be re-armed for), idle gap of 1.1-2.6 idle}; "+
-		"1-4 concurrent callers, idle in {5, 20, 50 ms, default 30 s}, maxWorkers 1..10 (hook VerifSetPool); thorough: all 120 orders x 4 idle values; family recancel = 2-6 pending futures, one cancelled, 1-4 more scheduled, the same one cancelled again (also twice in a row, after a fired one was cancelled, and deferred after the round), every other future must start; "+
+		"1-4 concurrent callers, idle in {5, 20, 50 ms, default 30 s}, maxWorkers 1..10 (hook VerifSetPool); thorough: all 120 orders x 4 idle values; family recancel = 2-6 pending futures, one cancelled, 1-4 more scheduled, the same one cancelled again (also twice in a row, after a fired one was cancelled, and deferred after the round), every other future must start; family sparse = a burst larger than the pool, then (workers in their idle sleep, idle 2-4 s or default) fewer near futures than there are surplus workers; "+
 		"(c) the premises of the theorems (0 <= idleTimeout, 1 <= maxWorkers, 1 <= cap(wakeCh)) read through VerifPool. "+
 		"observed: start of every callback vs its fireT (lateness histogram in the distribution), lock-held snapshots (worker count, tokens, heap; the head never due for more than 1 s), wind-down to zero workers, restart. non-trivial = at least 3 futures", false)
 }
